@@ -257,16 +257,22 @@ fn handle(line: &str) -> String {
             let owners: Vec<(String, String)> = if p[1] == "-" { vec![] } else {
                 p[1].split(',').map(|x| { let mut it = x.split(':'); (it.next().unwrap_or("root").to_string(), it.next().unwrap_or("root").to_string()) }).collect()
             };
+            // source date in the past, earlier than the source file's modification time (it is written now)
             let sd: u32 = 1_600_000_000;
+            let dests: Vec<String> = match p.get(2) { Some(&"-") | None => vec![], Some(s) => s.split(',').map(|x| x.to_string()).collect() };
+            let late_sd = p.get(3) == Some(&"late");
             let src = std::env::temp_dir().join(format!("rpm-native-replay-src-{}", std::process::id()));
             std::fs::write(&src, b"x").unwrap();
             let mut outs: Vec<Vec<u8>> = Vec::new();
             let mut late = String::new();
             for _ in 0..24 {
-                let mut b = rpm::PackageBuilder::new("n", "1", "MIT", "noarch", "s").compression(rpm::CompressionType::None).source_date(sd);
+                let mut b = rpm::PackageBuilder::new("n", "1", "MIT", "noarch", "s").compression(rpm::CompressionType::None);
+                if !late_sd { b = b.source_date(sd); }
                 for (i, (u, g)) in owners.iter().enumerate() {
-                    b = b.with_file(&src, rpm::FileOptions::new(format!("/d/f{}", i)).user(u.clone()).group(g.clone())).unwrap();
+                    let dest = dests.get(i).cloned().unwrap_or_else(|| format!("/d/f{}", i));
+                    b = b.with_file(&src, rpm::FileOptions::new(dest).user(u.clone()).group(g.clone())).unwrap();
                 }
+                if late_sd { b = b.source_date(sd); }
                 let pkg = b.build().unwrap();
                 if let Ok(t) = pkg.metadata.get_build_time() { if t > sd as u64 { late = format!("build time {}", t); } }
                 if let Ok(fes) = pkg.metadata.get_file_entries() { for fe in fes { if u32::from(fe.modified_at) > sd { late = format!("file mtime {}", u32::from(fe.modified_at)); } } }
@@ -468,6 +474,30 @@ fn handle(line: &str) -> String {
                 }
             }
             if bad.is_empty() { "same".to_string() } else { format!("differs: {}", bad.join(",")) }
+        }
+        "with_file_mode" => {
+            // <permission bits of the source file> <explicit permission bits | ->: with_file, build, read the mode back
+            use std::os::unix::fs::PermissionsExt;
+            let bits: u32 = p[1].parse().unwrap_or(0o644);
+            let explicit: Option<u16> = p.get(2).and_then(|x| x.parse().ok());
+            let src = std::env::temp_dir().join(format!("rpm-native-replay-mode-{}", std::process::id()));
+            std::fs::write(&src, b"x").unwrap();
+            std::fs::set_permissions(&src, std::fs::Permissions::from_mode(bits | 0o400)).unwrap();
+            let real = std::fs::metadata(&src).map(|m| m.permissions().mode() & 0o7777).unwrap_or(0);
+            let mut fo = rpm::FileOptions::new("/d/f");
+            if let Some(m) = explicit { fo = fo.mode(rpm::FileMode::regular(m)); }
+            let r = rpm::PackageBuilder::new("n", "1", "MIT", "noarch", "s").compression(rpm::CompressionType::None).with_file(&src, fo).and_then(|b| b.build());
+            let _ = std::fs::remove_file(&src);
+            match r {
+                Err(e) => format!("err {:?}", e).replace(' ', "_"),
+                Ok(pkg) => match pkg.metadata.get_file_entries() {
+                    Ok(v) if v.len() == 1 => {
+                        let want = explicit.map(|m| m as u32).unwrap_or(real) as u16;
+                        if v[0].mode == rpm::FileMode::regular(want) { "same".to_string() } else { format!("differs: got {:o} want {:o}", v[0].mode.raw_mode(), 0o100000 | want) }
+                    }
+                    _ => "differs: entries".to_string(),
+                },
+            }
         }
         "wsink" => {
             // <k> <fail_at> <intr_at> <package|metadata>: write a freshly built package into a scripted sink; every failure position is tried
